@@ -27,10 +27,11 @@
 (* The module is used three ways: model-checked with small tile widths     *)
 (* (MC_clientauth*.cfg: every case of CasesOf(N) for N in Sizes against    *)
 (* the reference client), to export the test plan at the real tile width   *)
-(* (MC_clientauth_plan.cfg: the same CasesOf, written to VERIF_CASES), and *)
-(* by ClientAuthTrace.tla on records of the real client.                   *)
+(* (ClientAuthPlan.tla with MC_clientauth_plan.cfg: the same CasesOf,      *)
+(* written to VERIF_CASES), and by ClientAuthTrace.tla on records of the   *)
+(* real client.                                                            *)
 (***************************************************************************)
-EXTENDS Tiling, Sequences, SequencesExt, TLC, Json, IOUtils
+EXTENDS Tiling, Sequences, TLC
 
 CONSTANTS
     Guards,   \* checks the reference client performs (AllGuards in the design; fewer in the negative controls)
@@ -370,17 +371,21 @@ SCTTampers == {Tam("sct", 0, 0, "field", 0, "logid", "flip"), Tam("sct", 0, 0, "
                Tam("sct", 0, 0, "field", 0, "sig", "otherkey")}
 CPTampers == {Tam("cp", 0, 0, k, 0, "", "") : k \in CPKinds}
 
-CasesOf(N) ==
-    LET calls == IterCalls(N) \cup EntryCalls(N) \cup SCTCalls(N) IN
-    {Case("A", N, c, NoTam) : c \in calls \cup {CPCall0}}
-    \cup {Case("A", N, c, t) : c \in calls, t \in StoreTampers(N)}
-    \cup {Case("A", N, c, t) : c \in SCTCalls(N), t \in SCTTampers}
-    \cup {Case("A", N, CPCall0, t) : t \in CPTampers}
-    \* the dishonest log: only the calls that look at the leaf index, untampered or with the SCT's index set to the position
-    \cup {Case("M", N, c, NoTam) : c \in calls}
-    \cup {Case("M", N, c, Tam("sct", 0, 0, "field", 0, "idx", "pos")) : c \in SCTCalls(N)}
-
-AllCases == UNION {CasesOf(N) : N \in Sizes}
+\* the cases of size N in parts (the model checker's workers take a part each)
+Parts == {<<"base", "">>} \cup ({"h", "d", "sub"} \X {"iter", "entry", "sct"})
+CallsOf(N, op) == CASE op = "iter" -> IterCalls(N) [] op = "entry" -> EntryCalls(N) [] op = "sct" -> SCTCalls(N)
+CasesPart(N, p) ==
+    IF p[1] = "base"
+    THEN LET calls == IterCalls(N) \cup EntryCalls(N) \cup SCTCalls(N) IN
+         {Case("A", N, c, NoTam) : c \in calls \cup {CPCall0}}
+         \cup {Case("A", N, c, t) : c \in SCTCalls(N), t \in SCTTampers}
+         \cup {Case("A", N, CPCall0, t) : t \in CPTampers}
+         \* the dishonest log: untampered, or with the SCT's index set to the position of the leaf
+         \cup {Case("M", N, c, NoTam) : c \in calls}
+         \cup {Case("M", N, c, Tam("sct", 0, 0, "field", 0, "idx", "pos")) : c \in SCTCalls(N)}
+    ELSE LET ts == CASE p[1] = "h" -> HashTampers(N) [] p[1] = "d" -> DataTampers(N) [] p[1] = "sub" -> SubTampers(N) IN
+         {Case("A", N, c, t) : c \in CallsOf(N, p[2]), t \in ts}
+CasesOf(N) == UNION {CasesPart(N, p) : p \in Parts}
 
 (***************************************************************************)
 (* The abstract result of the reference client on a case, in the shape the *)
@@ -460,41 +465,32 @@ Expect(c) ==
 
 Pristine(c) == Case(c.log, c.size, Call(c.op, c.all, c.start, c.i), NoTam)
 
-ExpectLemma(c) ==
-    LET r == Result(c) e == Expect(c) IN
+\* r: Result(c)
+ExpectLemma(c, r) ==
+    LET e == Expect(c) IN
     /\ e = "fail" => ~Complete(r)
-    /\ e = "same" => r = Result(Pristine(c))
+    /\ (e = "same" /\ c.obj # "none") => r = Result(Pristine(c))
 \* the honest log, untampered, answers every call completely (the model is not vacuous)
-PristineWorks(c) == (c.obj = "none" /\ c.log = "A") => Complete(Result(c))
+PristineWorks(c, r) == (c.obj = "none" /\ c.log = "A") => Complete(r)
 \* uncovered fields flow through unauthenticated: the specification allows both answers there
-UncoveredFlows(c) ==
+UncoveredFlows(c, r) ==
     (c.op = "iter" /\ c.obj = "d" /\ c.kind = "field" /\ c.field \in Uncovered /\ c.n \in DataTilesOf(c)
      /\ c.n * TW + c.pos - 1 >= c.start)
-    => LET r == Result(c) IN ~r.err /\ \E k \in 1..Len(r.runs) : ~(r.runs[k].fps /\ r.runs[k].pre)
+    => ~r.err /\ \E k \in 1..Len(r.runs) : ~(r.runs[k].fps /\ r.runs[k].pre)
 
 (***************************************************************************)
-(* Model checking: one state per case.                                     *)
+(* Model checking: one state per case, holding the case and the reference  *)
+(* client's abstract result.                                               *)
 (***************************************************************************)
 VARIABLE x
-CaseSeq == SetToSeq(AllCases)
-Buckets == 64     \* the cases are spread over buckets so that TLC's workers share them
-MCInit == x = [op |-> "start"]
-MCNext == \/ x.op = "start" /\ \E b \in 0..(Buckets - 1) : x' = [op |-> "bucket", b |-> b]
-          \/ x.op = "bucket" /\ \E k \in 1..Len(CaseSeq) : k % Buckets = x.b /\ x' = CaseSeq[k]
+MCInit == x = [k |-> "start"]
+MCNext == \/ x.k = "start" /\ \E N \in Sizes, p \in Parts : x' = [k |-> "part", size |-> N, p |-> p]
+          \/ x.k = "part" /\ \E c \in CasesPart(x.size, x.p) : x' = [k |-> "case", c |-> c, r |-> Result(c)]
 MCSpec == MCInit /\ [][MCNext]_x
-IsCase == x.op \notin {"start", "bucket"}
 
-InvSound == IsCase => Sound(Result(x))
-InvExpect == IsCase => ExpectLemma(x)
-InvPristine == IsCase => PristineWorks(x)
-InvUncovered == IsCase => UncoveredFlows(x)
+InvSound == x.k = "case" => Sound(x.r)
+InvExpect == x.k = "case" => ExpectLemma(x.c, x.r)
+InvPristine == x.k = "case" => PristineWorks(x.c, x.r)
+InvUncovered == x.k = "case" => UncoveredFlows(x.c, x.r)
 
-(***************************************************************************)
-(* Plan export: the cases, numbered, with their expected class.            *)
-(***************************************************************************)
-PlanSeq == LET cs == CaseSeq IN
-           [k \in 1..Len(cs) |-> cs[k] @@ [id |-> k, expect |-> Expect(cs[k])]]
-ASSUME "VERIF_CASES" \in DOMAIN IOEnv =>
-       /\ ndJsonSerialize(IOEnv.VERIF_CASES, PlanSeq)
-       /\ PrintT(<<"CASES", Len(PlanSeq)>>)
 =============================================================================
